@@ -170,24 +170,33 @@ func tKinds(names []string) string {
 	return strings.Join(l, ",")
 }
 
-// tCause: the window of the history up to height h as (height class: tx kinds) pairs — the shape of the
-// failing case for the fingerprint (computed on the shrunk history by the lead process).
+// tCause: the shape of the failing case for the fingerprint: the scenario (without the rotation
+// variant) and the KINDS of transactions in the non-empty window blocks up to height h (a set: at which
+// of the window heights they sit varies freely for most defects and would split one class into many).
 func tCause(sc *tScenario, hist []string, h uint32) string {
 	_, letters := tHistLetters(hist)
-	var l []string
+	name := strings.TrimSuffix(strings.TrimSuffix(sc.name, "'"), "'")
+	if int(h) <= len(sc.prefix) {
+		return "in-prefix-of-" + name
+	}
+	set := map[string]bool{}
 	for i := len(sc.prefix); i < int(h) && i < len(letters); i++ {
 		if letters[i] == "-" {
 			continue
 		}
-		l = append(l, heightClass(uint32(i+1))+":["+tKinds(tBlockNames(letters[i]))+"]")
+		for _, k := range strings.Split(tKinds(tBlockNames(letters[i])), ",") {
+			set[k] = true
+		}
 	}
-	if int(h) <= len(sc.prefix) {
-		return sc.name + "/in-prefix"
+	if len(set) == 0 {
+		return name + "/empty-window"
 	}
-	if len(l) == 0 {
-		return sc.name + "/empty-window"
+	l := make([]string, 0, len(set))
+	for k := range set {
+		l = append(l, k)
 	}
-	return sc.name + "/" + strings.Join(l, "")
+	sort.Strings(l)
+	return name + "/window-txs{" + strings.Join(l, ",") + "}"
 }
 
 func depNames(n types.DeputyNodes) string {
